@@ -242,7 +242,7 @@ def r20b(P, R):
     counts = [x for x in relative.walk() if x.get("k") == "MethodCall" and x["method"] in ("count", "position", "len")
               and any(c["method"] == "zip" for c in method_chain(x)[1])]
     if not counts:
-        R.undecided("R20-b", "common-prefix", "no zip(..)…count()/position() chain found; how the common prefix is measured was not recognised", loc=loc)
+        _common_prefix_loop(R, relative, pv, p_from, p_to, loc)
     for x in counts:
         base, chain = method_chain(x)
         ms = [c["method"] for c in chain]
@@ -453,6 +453,50 @@ def _component_variants_in(pat):
     return out
 
 
+def _common_prefix_loop(R, relative, pv, p_from, p_to, loc):
+    """the explicit-loop spelling: `for (f, t) in from.zip(to) { if f != t { break } n += 1 }` (or the `==`/else form).  The count is
+    a *prefix* length only if the first mismatch leaves the loop."""
+    from templates import diverges
+    loops = []
+    for x in relative.walk():
+        if x.get("k") == "Match" and x.get("src") == "ForLoopDesugar" and x["scrut"].get("k") == "Call" and x["scrut"].get("args"):
+            it = x["scrut"]["args"][0]
+            if any(c.get("k") == "MethodCall" and c["method"] == "zip" for c in subnodes(it)) and \
+                    _recv_side(pv, it, p_from, p_to) | set().union(*[_recv_side(pv, a, p_from, p_to) for c in subnodes(it) if c.get("k") == "MethodCall" and c["method"] == "zip" for a in c["args"]]) == {"from", "to"}:
+                loops.append(x)
+    if not loops:
+        R.undecided("R20-b", "common-prefix", "no zip(..)…count()/position() chain and no loop over zip(from, to) found; how the common prefix is "
+                    "measured was not recognised", loc=loc)
+        return
+    for lp in loops:
+        ifs = [y for y in subnodes(lp) if y.get("k") == "If" and any(z.get("k") == "Binary" and z.get("op") in ("==", "!=") for z in subnodes(y["cond"]))]
+        incs = [y for y in subnodes(lp) if y.get("k") == "AssignOp" and y.get("op") in ("+=", "Add", "AddAssign")]
+        if len(ifs) != 1 or not incs:
+            R.undecided("R20-b", "common-prefix", "loop over zip(from, to) with %d comparisons and %d increments; not recognised" % (len(ifs), len(incs)), loc=loc)
+            continue
+        cond = ifs[0]["cond"]
+        while cond.get("k") in ("DropTemps", "Paren"):
+            cond = cond["e"]
+        neg = False
+        while cond.get("k") == "Unary" and cond.get("op") == "Not":
+            neg, cond = not neg, cond["e"]
+        if cond.get("k") != "Binary" or cond.get("op") not in ("==", "!="):
+            R.undecided("R20-b", "common-prefix", "compound comparison in the prefix loop", loc=loc)
+            continue
+        equal_branch_is_then = (cond["op"] == "==") != neg
+        mismatch = ifs[0].get("else") if equal_branch_is_then else ifs[0].get("then")
+
+        def leaves_loop(b):
+            return b is not None and any(z.get("k") in ("Break", "Ret") for z in subnodes(b))
+        if leaves_loop(mismatch):
+            R.holds("R20-b", "common-prefix", "the counting loop stops at the first mismatch")
+        else:
+            kinds = sorted({z.get("k") for z in subnodes(mismatch)} & {"Continue"}) if mismatch is not None else []
+            R.violated("R20-b", "common-prefix", "the loop that counts shared components does not stop at the first mismatch (%s): later coincidental "
+                       "matches are counted as shared prefix — `/a/x/c/f` vs `/a/y/c/g` counts 2 and yields a path into the wrong directory"
+                       % ("it `continue`s" if kinds else "the mismatch branch falls through"), loc=loc)
+
+
 def _plain_local(e):
     while e.get("k") in ("DropTemps", "Use", "Paren", "AddrOf", "Unary") and "e" in e:
         if e.get("k") == "Unary" and e.get("op") != "Deref":
@@ -534,6 +578,20 @@ def r20c(P, R):
     else:
         R.violated("R20-c", "relative-to-directory", "resolve_relative_path appends the relative path to the importing *file* path (no "
                    "pop/parent): `/a/main.graphql` + `./f` resolves below `main.graphql`", loc=loc)
+    # `PathBuf::pop` is textual: cancelling a `..` of the relative path against the un-normalised base removes whatever component
+    # happens to be last (possibly another `..`).  Only normalize_path's component stack may cancel `..`.
+    textual = []
+    for m in _component_matches(resolve):
+        i = first_match(m, "ParentDir")
+        if i is None:
+            continue
+        for y in subnodes(m["arms"][i]["body"]):
+            if y.get("k") == "MethodCall" and y["method"] in ("pop", "parent") and "Path" in (norm(y.get("recv_ty")) or ""):
+                if not has_call(pv.atoms(y["recv"]), nname):
+                    textual.append(y["method"])
+    R.check("R20-c", "no-textual-parent-cancelling", not textual, "`..` is cancelled only by normalize_path's component stack",
+            "resolve_relative_path handles a `..` of the relative path with PathBuf::%s on a base that was not normalised: `/p/app/../shared/m.graphql` + "
+            "`../../c/f` cancels the base's own `..` and lands in `/p/app/c/f` instead of `/c/f`" % (textual[0] if textual else "pop"), loc=loc)
     joins = [x for x in resolve.walk() if x.get("k") == "MethodCall" and x["method"] in ("push", "join", "extend") and "Path" in (norm(x.get("recv_ty")) or "")]
     if joins:
         ok = any(("param", p_rel) in pv.atoms(x["args"][0]) and ("param", p_file) in pv.atoms(x["recv"]) for x in joins)
@@ -634,6 +692,32 @@ def r20d(P, R):
                 else:
                     R.violated("R20-d", "ts-extension:%s#%d" % (key, idxk), "the schema specifier is written without the TS->JS extension rewrite "
                                "(`./schema.d.ts` is not importable)", loc=owner.loc())
+    # ---- no consumer calls a path function that skips normalisation: every function of nitrogql_utils that compares or reverses
+    # raw `components()` of a parameter requires normalised input; outside callers cannot guarantee that (`root.join("../x")`)
+    raw_fns = {}
+    for f in P.fns.values():
+        if not f.path.startswith(UT) or f.kind not in ("Fn", "AssocFn") or f.derived or "::test" in f.path or f.path == normalize.path:
+            continue
+        if not (f.sig_output or "").endswith("std::path::PathBuf") or not f.pub:
+            continue
+        fpv = Prov(f)
+        pnames = {fpv.params.get(p.get("local")) for p in f.params if p.get("k") == "Binding"}
+        raw = [c for c in f.walk() if c.get("k") == "MethodCall" and c["method"] == "components"
+               and any(a[0] == "param" and a[1] in pnames for a in fpv.atoms(c["recv"])) and not has_call(fpv.atoms(c["recv"]), normalize.path.split("::")[-1])]
+        ups = any(y.get("k") == "Path" and norm(y.get("def") or "").endswith("Component::ParentDir") and y.get("dk", "").startswith("Ctor") for y in f.walk())
+        if raw and ups:
+            raw_fns[f.path] = f
+    for f in P.fns.values():
+        if f.path.startswith(UT) or f.derived or "::tests::" in f.path:
+            continue
+        for n in f.walk():
+            if n.get("k") == "Call" and call_name(n) in raw_fns:
+                R.violated("R20-d", "normalised-consumer:%s" % short(f.path), "%s calls %s, which takes the components of its arguments as they are "
+                           "(no normalize_path): a configured output such as `../server/out.d.ts` joined onto the root keeps its `..`, each of "
+                           "which is then counted as a directory to climb out of, and the import specifier points at the wrong file"
+                           % (f.path, short(call_name(n))), loc=f.loc())
+    if not raw_fns:
+        R.holds("R20-d", "normalised-consumer", "every public path function normalises its inputs itself")
     # ---- the extension table
     tbl = _ext_table(P)
     if tbl is None:
